@@ -621,11 +621,21 @@ def case_x(ck, rng):
         chk(ck, bad, f"native likelihoods: reduced chi^2 of part differs between cl and re",
             np.asarray(st.reduced_chisq)[0], vals["redchisq"]["data_residuals"][k]["mean"],
             "x_numbers", key="x:native:redchisq", rtol=1e-10)
-        chk(ck, bad, "native likelihoods: the mean normalised data residual reported by the classic "
-            "and the JAX diagnostics for the same Gaussian model, data and samples differs "
-            "(classic: sqrt(N^-1)(s-d), JAX: sqrt(N^-1)(d-s))",
-            np.asarray(st.mean)[0], vals["scmean"]["data_residuals"][k]["mean"],
-            "x_numbers", key="x:native:mean-sign-convention", rtol=1e-10)
+        ck.hit("x_numbers")
+        o_re = complex(np.asarray(st.mean)[0])
+        o_cl = complex(vals["scmean"]["data_residuals"][k]["mean"])
+        sc = max(abs(o_re), abs(o_cl), 1e-300)
+        if abs(o_re - o_cl) > 1e-10 * sc:
+            if abs(o_re + o_cl) <= 1e-10 * sc:
+                # exactly this mechanism and nothing else: equal magnitude, opposite sign
+                bad("native Gaussian likelihoods: the mean normalised data residual reported by the "
+                    "classic and the JAX diagnostics for the same model, data and samples has opposite "
+                    "sign (classic: sqrt(N^-1)(s-d), JAX: sqrt(N^-1)(d-s))",
+                    key="x:native:mean-sign-convention", observed_re=repr(o_re), observed_cl=repr(o_cl))
+            else:
+                bad("native Gaussian likelihoods: the mean normalised data residual differs between "
+                    "the classic and the JAX diagnostics (not just by sign)",
+                    key="x:native:mean", observed_re=repr(o_re), observed_cl=repr(o_cl))
     ck.note(desc, nontrivial=(ns >= 2), klass="x")
 
 
